@@ -24,11 +24,12 @@ namespace
     return r;
   }
 
-  struct Sec { bool sph; P2 c0, c1; int variant; };
+  struct Sec { bool sph; P2 c0, c1; int variant; bool force; };
   Sec decode(uint64_t idx, bool thorough)
   {
     Sec s;
     s.sph = idx % 2; idx /= 2;
+    s.force = idx % 2; idx /= 2;
     const size_t io = idx % NORIG; idx /= NORIG;
     const size_t id = idx % NDIR; idx /= NDIR;
     s.variant = thorough ? static_cast<int>(idx % 2) : 0;
@@ -64,14 +65,15 @@ namespace
                      c_pairs = Ctx::counter_id("adjacent_double_pairs_checked");
     static const std::vector<Request> REQS = requests();
     const Sec sc = decode(idx, thorough);
-    worlds::Opt o; o.spherical = sc.sph; o.cross_section = true; o.custom_cs = true; o.cs0 = sc.c0; o.cs1 = sc.c1; o.variant = sc.variant;
+    worlds::Opt o; o.spherical = sc.sph; o.cross_section = true; o.custom_cs = true; o.cs0 = sc.c0; o.cs1 = sc.c1; o.variant = sc.variant; o.force_surface = sc.force;
     const std::string text = worlds::rich(o);
     auto w = make_world(text);
     const P2 u = direction(sc);
-    const std::string sdesc = JObj().boolean("spherical", sc.sph).raw("section_from", jarr(sc.c0)).raw("section_to", jarr(sc.c1)).done();
+    const std::string sdesc = JObj().boolean("spherical", sc.sph).boolean("forced_surface_temperature", sc.force).raw("section_from", jarr(sc.c0)).raw("section_to", jarr(sc.c1)).done();
     // 2-D lattice
     std::vector<std::array<double,3>> pts2;   // x, z, depth
-    const std::vector<double> depths = {0.0, 2e4, 8e4, 1.2e5, 2.5e5, 5e5};
+    // depths include points just above / at / just below the reference surface (an application with topography asks for negative depths)
+    const std::vector<double> depths = {0.0, 2e4, 8e4, 1.2e5, 2.5e5, 5e5, -5.0, -1e-9, 1e-16};
     if (!sc.sph) for (double x = -2e5; x <= 12.1e5; x += 0.7e5) for (double d : depths) pts2.push_back({{x, CART_TOP - d, d}});
     else for (double a = -2.0; a <= 12.05; a += 0.7) for (double d : depths) { const double r = R_EARTH - d; pts2.push_back({{r*std::cos(a*PI/180), r*std::sin(a*PI/180), d}}); }
     bool any_feature = false;
@@ -127,6 +129,29 @@ namespace
       {
         if (w->properties(point3d(sc, q[0], q[1]), q[2], {{{4,0,0}}})[0] != -1) any_feature = true;
         for (auto &req : REQS) compare(q, req, "lattice");
+        // the single-property entry points of the two interfaces
+        {
+          const std::array<double,2> p2 = {{q[0], q[1]}};
+          const P3 p3 = point3d(sc, q[0], q[1]);
+          auto entry_bad = [&](const char *fn, double v2, double v3)
+          {
+            ctx.violation(std::string("C09/entry-point/") + fn + (q[2] < 0 ? "/negative-depth" : q[2] < 1e-12 ? "/surface" : ""),
+                          JObj().str("what", std::string("2-D ") + fn + "() differs from 3-D " + fn + "() at the point the statement assigns to it").raw("section", sdesc).raw("point_2d", jarr(p2))
+                          .num("depth", q[2]).raw("point_3d", jarr(p3)).num("answer_2d", v2).num("answer_3d", v3).str("world", text).done());
+          };
+          const std::vector<double> tb = w->properties(p3, q[2], {{{4,0,0}},{{2,0,0}},{{2,1,0}}}), ta = w->properties(p2, q[2], {{{4,0,0}},{{2,0,0}},{{2,1,0}}});
+          if (biteq(ta, tb))     // (a disagreement here is reported, or skipped as non-robust, by the lattice comparison above)
+            {
+              const double t2 = w->temperature(p2, q[2]), t3 = w->temperature(p3, q[2]);
+              ctx.eval(3);
+              if (!(std::fabs(t2 - t3) <= 1e-9*std::fabs(t3))) entry_bad("temperature", t2, t3);
+              for (unsigned c = 0; c < 2; ++c)
+                {
+                  const double c2 = w->composition(p2, q[2], c), c3 = w->composition(p3, q[2], c);
+                  if (!(std::fabs(c2 - c3) <= 1e-12*(1+std::fabs(c3)))) entry_bad("composition", c2, c3);
+                }
+            }
+        }
       }
     // pairs of adjacent doubles along the section that straddle a feature boundary (bisection on the 3-D tag); queried
     // in -> out -> in through the 2-D interface, every answer compared with the 3-D interface
@@ -162,24 +187,30 @@ namespace
 
   void run_nosection(uint64_t idx, Ctx &ctx)
   {
-    worlds::Opt o; o.spherical = idx == 1; o.cross_section = false;
-    auto w = make_world(worlds::rich(o));
-    const std::array<double,2> p = {{1e5, 1e5}};
-    int thrown = 0;
-    auto expect_throw = [&](const char *name, const std::function<void()> &f)
-    {
-      ctx.eval();
-      try { f(); ctx.violation(std::string("C09/no-cross-section/") + name + "-does-not-throw", JObj().boolean("spherical", o.spherical).done()); }
-      catch (const std::exception &) { ++thrown; }
-      catch (...) { ctx.violation(std::string("C09/no-cross-section/") + name + "-throws-non-standard-exception", "{}"); }
-    };
-    expect_throw("properties", [&]() { (void)w->properties(p, 1e4, {{{1,0,0}}}); });
-    expect_throw("temperature", [&]() { (void)w->temperature(p, 1e4); });
-    expect_throw("temperature-gravity", [&]() { (void)w->temperature(p, 1e4, 9.81); });
-    expect_throw("composition", [&]() { (void)w->composition(p, 1e4, 0); });
-    expect_throw("grains", [&]() { (void)w->grains(p, 1e4, 0, 2); });
-    if (thrown == 5) ctx.nontrivial();
-    ctx.sample(JObj().str("suite", "no cross section").boolean("spherical", o.spherical).integer("entry_points_refusing", thrown).done());
+    worlds::Opt o; o.spherical = idx % 2 == 1; o.cross_section = false; o.force_surface = (idx / 2) % 2 == 1;
+    const std::string text = worlds::rich(o);
+    auto w = make_world(text);
+    int thrown = 0, asked = 0;
+    for (const std::array<double,2> &p : {std::array<double,2>{{1e5, 1e5}}, std::array<double,2>{{0.0, CART_TOP}}, std::array<double,2>{{R_EARTH, 0.0}}})
+      for (double depth : {1e4, 0.0, -0.0, 1e-17, -1e-17, -5.0, 5e5})
+        {
+          auto expect_throw = [&](const char *name, const std::function<void()> &f)
+          {
+            ctx.eval(); ++asked;
+            const std::string cls = std::string(o.force_surface ? "/forced-surface-temperature" : "") + (std::fabs(depth) < 1e-12 ? "/at-the-surface" : depth < 0 ? "/negative-depth" : "");
+            try { f(); ctx.violation(std::string("C09/no-cross-section/") + name + "-does-not-throw" + cls, JObj().boolean("spherical", o.spherical).boolean("forced_surface_temperature", o.force_surface).raw("point_2d", jarr(p)).num("depth", depth).str("world", text).done()); }
+            catch (const std::exception &) { ++thrown; }
+            catch (...) { ctx.violation(std::string("C09/no-cross-section/") + name + "-throws-non-standard-exception", "{}"); }
+          };
+          expect_throw("properties", [&]() { (void)w->properties(p, depth, {{{1,0,0}}}); });
+          expect_throw("properties-batched", [&]() { (void)w->properties(p, depth, {{{4,0,0}},{{1,0,0}},{{5,0,0}}}); });
+          expect_throw("temperature", [&]() { (void)w->temperature(p, depth); });
+          expect_throw("temperature-gravity", [&]() { (void)w->temperature(p, depth, 9.81); });
+          expect_throw("composition", [&]() { (void)w->composition(p, depth, 0); });
+          expect_throw("grains", [&]() { (void)w->grains(p, depth, 0, 2); });
+        }
+    if (thrown == asked) ctx.nontrivial();
+    ctx.sample(JObj().str("suite", "no cross section").boolean("spherical", o.spherical).boolean("forced_surface_temperature", o.force_surface).integer("queries_refused", thrown).integer("queries", asked).done());
   }
 }
 
@@ -199,10 +230,10 @@ int main(int argc, char **argv)
   {
     const bool th = tier == "thorough";
     std::vector<Suite> s;
-    Suite a; a.name = "sections"; a.n = 2*NORIG*NDIR*(th ? 2 : 1); a.run = [th](uint64_t i, Ctx &c) { run_section(th, i, c); };
-    a.bound = "2 coordinate systems x 5 origins x 7 directions" + std::string(th ? " x 2 world files" : "") + "; 126 2-D points x 72 request lists each";
+    Suite a; a.name = "sections"; a.n = 2*2*NORIG*NDIR*(th ? 2 : 1); a.run = [th](uint64_t i, Ctx &c) { run_section(th, i, c); };
+    a.bound = "2 coordinate systems x forced surface temperature {off,on} x 5 origins x 7 directions" + std::string(th ? " x 2 world files" : "") + "; 189 2-D points (9 depths incl. just above/at/below the surface) x 72 request lists each, plus the temperature/composition entry points";
     s.push_back(a);
-    Suite b; b.name = "nosection"; b.n = 2; b.run = run_nosection; b.bound = "worlds without cross section (cartesian, spherical): all five 2-D entry points must throw std::exception";
+    Suite b; b.name = "nosection"; b.n = 4; b.run = run_nosection; b.bound = "worlds without cross section (cartesian, spherical) x forced surface temperature {off,on}: all six 2-D entry points must throw std::exception at 3 points x 7 depths (incl. 0, +-1e-17, negative)";
     s.push_back(b);
     return s;
   });
